@@ -4,6 +4,7 @@ usage: PYTHONPATH=<tree>/src /venv/bin/python probes/defects.py [name ...]
 """
 import sys, traceback
 import jax, jax.numpy as jnp
+import jax.tree_util as jtu
 import genjax
 from genjax import gen, normal, flip, ChoiceMapBuilder as C, Selection as S, Diff, Update, Regenerate
 from genjax._src.core.generative.requests import EmptyRequest
@@ -410,6 +411,53 @@ def c29_flip_enum_parallel():
     g = float(f.grad_estimate(key, (0.3,))[0])
     assert abs(g - (4 * 0.3 - 3)) < 1e-4, g
     return g
+
+@probe
+def c15_dimap_constant_output():
+    """dimap whose pre / post returns a Python constant in one position: an argument-changing update must recompute pre / post, not raise
+    (found by the round-2 C15 sub-agent: Literal outvars left the incremental interpreter un-tagged)"""
+    import genjax
+    @gen
+    def model(x, y):
+        z = normal(x, y) @ "z"
+        return z + x
+    out = []
+    for pre, post in ((lambda x, y: (x, 1.0), lambda a, xa, r: r * 2), (lambda x, y: (x, y), lambda a, xa, r: (r * 2, 0.0))):
+        g = model.dimap(pre=pre, post=post)
+        tr = g.simulate(key, (1.0, 2.0))
+        new_tr, w, rd, _ = tr.update(key, C.n(), Diff.unknown_change((3.0, 2.0)))
+        inner_new = pre(3.0, 2.0)
+        exp_score, inner_ret = model.assess(tr.get_choices(), inner_new)
+        exp = post((3.0, 2.0), inner_new, inner_ret)
+        assert jnp.allclose(jnp.asarray(jtu.tree_leaves(new_tr.get_retval())), jnp.asarray(jtu.tree_leaves(exp))), (new_tr.get_retval(), exp)
+        out.append(float(w))
+    return out
+
+@probe
+def c14_mask_of_mask_assess():
+    """fixed: a masked function whose inner function returns a Mask can be assessed (Mask.build merges the flags)"""
+    m = normal.mask().mask()
+    tr = m.simulate(key, (True, True, 0.0, 1.0))
+    score, ret = m.assess(tr.get_choices(), tr.get_args())
+    assert jnp.allclose(score, tr.get_score())
+    return float(score)
+
+@probe
+def c14_mask_of_mask_edit():
+    """open: updating a masked function whose inner function returns a Mask raises AssertionError in Mask.build (Diff flags)"""
+    m = normal.mask().mask()
+    tr = m.simulate(key, (True, True, 0.0, 1.0))
+    new, w, rd, bwd = tr.update(key, C.n(), Diff.no_change((True, True, 0.0, 1.0)))
+    return float(w)
+
+@probe
+def c14_mask_false_assess():
+    """open: concrete False flag: the trace's own (empty) choices cannot be assessed"""
+    m = normal.mask()
+    tr = m.simulate(key, (False, 0.0, 1.0))
+    score, ret = m.assess(tr.get_choices(), tr.get_args())
+    assert float(score) == 0.0
+    return float(score)
 
 if __name__ == "__main__":
     names = sys.argv[1:] or list(P)
